@@ -94,6 +94,8 @@ def read_via(fs, text, cfg, kw=None, lasio_mod=None, tag="r", into=None):
                 fh.close()
         if cfg.get("explicit"):
             kw["encoding"] = cfg.get("encoding_kw") or cfg["codec"]
+            if cfg.get("no_autodetect"):
+                kw["autodetect_encoding"] = False
         elif cfg.get("no_chardet") or cfg["codec"] != "utf-8-sig":
             kw["autodetect_encoding"] = False
         src = path if ch == "path" else pathlib.Path(path)
